@@ -22,7 +22,8 @@ EXTENDS CertLoadProps
 (* with an element on a target's path, signed by a normal element, off-path,   *)
 (* or a target itself - and the certificate stays acyclic in the sense of      *)
 (* CertLoadProps (a path ends at the first `signed_by = Root`).                *)
-CONSTANTS Pool,         \* element names, e.g. {"a", "b", "c", "root"}
+CONSTANTS Stretching,   \* BOOLEAN: may one edge of a walked path stand for a long run of elements
+          Pool,         \* element names, e.g. {"a", "b", "c", "root"}
           MaxItems, MaxTargets,
           MaxOdd        \* how many items may carry an unusual-but-loadable payload
 
@@ -42,10 +43,10 @@ DefectFlds == {"by_missing", "pay_missing", "pay_invalid", "spell_refused"} \cup
 OddFlds    == {"long", "short", "odd", "extra", "spell_same"}
 BenignFlds == {"ok"}
 
-VARIABLES flavour, ver, tgtc, elsc, targets, items, iby, linkok, odd,           \* Env
+VARIABLES flavour, ver, tgtc, elsc, targets, items, iby, linkok, odd, stretch,  \* Env
           phase, round, eff, order, doc2, k, ti, sub, cur, visited, chain,      \* Sys
           res1, res2, wsteps, steps
-envv == <<flavour, ver, tgtc, elsc, targets, items, iby, linkok, odd>>
+envv == <<flavour, ver, tgtc, elsc, targets, items, iby, linkok, odd, stretch>>
 sysv == <<phase, round, eff, order, doc2, k, ti, sub, cur, visited, chain, res1, res2, wsteps, steps>>
 vars == <<envv, sysv>>
 
@@ -55,7 +56,7 @@ TargetSeqs == UNION {[1..n -> Pool \cup {Ghost}] : n \in 0..MaxTargets}
 \* both); a flavour-specific defect pins it
 Init == /\ flavour = "any"
         /\ ver = "?" /\ tgtc = "?" /\ elsc = "?" /\ targets = <<>> /\ items = <<>>
-        /\ iby = <<>> /\ linkok = <<>> /\ odd = 0
+        /\ iby = <<>> /\ linkok = <<>> /\ odd = 0 /\ stretch = [edge |-> 0, cls |-> "?"]
         /\ phase = "ver" /\ round = 1 /\ eff = <<>> /\ order = <<>> /\ doc2 = <<>> /\ k = 1
         /\ ti = 1 /\ sub = "enter" /\ cur = 0 /\ visited = {} /\ chain = <<>>
         /\ res1 = <<>> /\ res2 = <<>> /\ wsteps = 0 /\ steps = 0
@@ -69,7 +70,7 @@ CheckVer == /\ phase = "ver"
                  /\ ver' = v
                  /\ phase' = IF v \in {"ok", "swapped"} THEN "tgt" ELSE "error"
             /\ Tick
-            /\ UNCHANGED <<flavour, tgtc, elsc, targets, items, iby, linkok, odd, round, eff, order,
+            /\ UNCHANGED <<stretch, flavour, tgtc, elsc, targets, items, iby, linkok, odd, round, eff, order,
                            doc2, k, ti, sub, cur, visited, chain, res1, res2, wsteps>>
 
 CheckTgt == /\ phase = "tgt"
@@ -78,7 +79,7 @@ CheckTgt == /\ phase = "tgt"
                  /\ IF c = "list" THEN \E ts \in TargetSeqs : targets' = ts /\ phase' = "els"
                     ELSE phase' = "error" /\ UNCHANGED targets
             /\ Tick
-            /\ UNCHANGED <<flavour, ver, elsc, items, iby, linkok, odd, round, eff, order,
+            /\ UNCHANGED <<stretch, flavour, ver, elsc, items, iby, linkok, odd, round, eff, order,
                            doc2, k, ti, sub, cur, visited, chain, res1, res2, wsteps>>
 
 CheckEls == /\ phase = "els"
@@ -86,7 +87,7 @@ CheckEls == /\ phase = "els"
                  /\ elsc' = c
                  /\ phase' = IF c = "list" THEN "items" ELSE IF c = "emptyiter" THEN "walk" ELSE "error"
             /\ Tick
-            /\ UNCHANGED <<flavour, ver, tgtc, targets, items, iby, linkok, odd, round, eff, order,
+            /\ UNCHANGED <<stretch, flavour, ver, tgtc, targets, items, iby, linkok, odd, round, eff, order,
                            doc2, k, ti, sub, cur, visited, chain, res1, res2, wsteps>>
 
 Register(nm, idx) == /\ eff' = (nm :> idx) @@ eff                      \* last wins
@@ -107,7 +108,7 @@ Item1 == /\ phase = "items" /\ round = 1
                        THEN Register(nm, Len(items) + 1) /\ UNCHANGED phase
                        ELSE Err /\ UNCHANGED <<eff, order>>
          /\ Tick
-         /\ UNCHANGED <<ver, tgtc, elsc, targets, iby, linkok, round, doc2, k, ti, sub, cur,
+         /\ UNCHANGED <<stretch, ver, tgtc, elsc, targets, iby, linkok, round, doc2, k, ti, sub, cur,
                         visited, chain, res1, res2, wsteps>>
 
 \* round 2: the items are those that were saved
@@ -128,15 +129,29 @@ WEnter == /\ phase = "walk" /\ sub = "enter"
 
 ByChoices(idx) == IF idx \in DOMAIN iby THEN {iby[idx]} ELSE Pool \cup {Root, Ghost}
 
+\* PATH LENGTH.  The small item bound does not bound the documents: ONE edge of a walked path (from an item
+\* to the element that signs it) may stand for a RUN of further elements, each signed by the next, as long as
+\* one likes (the harness makes it 5 ... 3000 elements long).  The run is
+\*   "ok"     well formed and every link in it verifies,
+\*   "bad"    well formed, one link in it (near its top / middle / bottom) does not verify,
+\*   "cycle"  its last element is signed by the item again instead of by the item's certifier.
+\* The program walks it element by element; here it is one step, whatever its length: nothing the loader
+\* or the validator does may depend on how long a path is.
+StretchChoices(idx) == IF stretch.cls = "?" /\ Stretching THEN {"none", "ok", "bad", "cycle"} ELSE {"none"}
+
 WStep == /\ phase = "walk" /\ sub = "step"
          /\ LET nm == items[cur].name IN
-            IF nm \in visited THEN Err /\ UNCHANGED <<iby, ti, sub, cur, visited>>
+            IF nm \in visited THEN Err /\ UNCHANGED <<iby, ti, sub, cur, visited, stretch>>
             ELSE \E p \in ByChoices(cur) :
                    /\ iby' = (cur :> p) @@ iby
-                   /\ IF p = Root THEN ti' = ti + 1 /\ sub' = "enter" /\ UNCHANGED <<phase, cur, visited>>
-                      ELSE IF p \notin DOMAIN eff THEN Err /\ UNCHANGED <<ti, sub, cur, visited>>
-                      ELSE /\ visited' = visited \cup {nm} /\ cur' = eff[p]
-                           /\ UNCHANGED <<phase, ti, sub>>
+                   /\ IF p = Root THEN ti' = ti + 1 /\ sub' = "enter" /\ UNCHANGED <<phase, cur, visited, stretch>>
+                      ELSE IF p \notin DOMAIN eff THEN Err /\ UNCHANGED <<ti, sub, cur, visited, stretch>>
+                      ELSE \E c \in (IF cur \in DOMAIN iby THEN {"none"} ELSE StretchChoices(cur)) :
+                           /\ stretch' = IF c = "none" THEN stretch ELSE [edge |-> cur, cls |-> c]
+                           /\ IF c = "cycle" \/ (stretch.edge = cur /\ stretch.cls = "cycle")
+                              THEN Err /\ UNCHANGED <<ti, sub, cur, visited>>       \* a name of the run comes again
+                              ELSE /\ visited' = visited \cup {nm} /\ cur' = eff[p]
+                                   /\ UNCHANGED <<phase, ti, sub>>
          /\ wsteps' = wsteps + 1 /\ Tick
          /\ UNCHANGED <<flavour, ver, tgtc, elsc, targets, items, linkok, odd, round, eff, order, doc2, k,
                         chain, res1, res2>>
@@ -162,7 +177,11 @@ Put(v) == IF round = 1 THEN res1' = (targets[ti] :> v) @@ res1 /\ UNCHANGED res2
 VCheck == /\ phase = "validate" /\ sub = "check"
           /\ \E ok \in OkChoices(cur) :
                /\ linkok' = (cur :> ok) @@ linkok
-               /\ IF ~ok
+               /\ IF stretch.edge = cur /\ stretch.cls = "bad"
+                  \* the run hangs between cur's certifier (checked just before) and cur: its bad link comes first
+                  THEN /\ Put([valid |-> FALSE, what |-> "an element of the run"])
+                       /\ ti' = ti + 1 /\ sub' = "enter" /\ UNCHANGED <<cur, chain>>
+                  ELSE IF ~ok
                   THEN /\ Put([valid |-> FALSE, what |-> items[cur].name])
                        /\ ti' = ti + 1 /\ sub' = "enter" /\ UNCHANGED <<cur, chain>>
                   ELSE IF chain = <<>>
@@ -171,7 +190,7 @@ VCheck == /\ phase = "validate" /\ sub = "check"
                   ELSE /\ cur' = chain[Len(chain)] /\ chain' = SubSeq(chain, 1, Len(chain) - 1)
                        /\ UNCHANGED <<res1, res2, ti, sub>>
           /\ Tick
-          /\ UNCHANGED <<flavour, ver, tgtc, elsc, targets, items, iby, odd, phase, round, eff, order, doc2, k,
+          /\ UNCHANGED <<stretch, flavour, ver, tgtc, elsc, targets, items, iby, odd, phase, round, eff, order, doc2, k,
                          visited, wsteps>>
 
 \* ---- save_to_jsonfile ; from_jsonfile --------------------------------------------------------------
